@@ -66,8 +66,8 @@ func userFunctionCallRuleSSA(r *Run) {
 			case *ssa.Call:
 				if x.Call.StaticCallee() == m.expr {
 					lastEval = i
-					if !seenE[x] {
-						seenE[x] = true
+					if !seenE[origCall(x)] {
+						seenE[origCall(x)] = true
 						evalCalls = append(evalCalls, x)
 					}
 				}
@@ -75,8 +75,8 @@ func userFunctionCallRuleSSA(r *Run) {
 					if firstSet < 0 {
 						firstSet = i
 					}
-					if !seenS[x] {
-						seenS[x] = true
+					if !seenS[origCall(x)] {
+						seenS[origCall(x)] = true
 						setCalls = append(setCalls, x)
 					}
 				}
